@@ -16,7 +16,8 @@ RULE = ('ops: every in-range tuple for n=1,2 (n=3: all 1,451,520 in thorough, a 
         'non-trivial when its arguments are not all zero.')
 TRUSTED = ['Lean 4.33 kernel', 'axioms: propext, Classical.choice, Quot.sound', 'Lean compiler for the driver executable',
            'harness/c09.py canonicalisation (uint8 arrays printed as 0/1 strings in array order; tuples as decimal integers)',
-           'modelled, not verified: numqi/group/spf2.py, numqi/random/_spf2.py (rand_SpF2 = from_int_tuple of a tuple drawn below the bases)']
+           'modelled, not verified: numqi/group/spf2.py, numqi/random/_spf2.py (rand_SpF2 = from_int_tuple of a tuple drawn below the bases)',
+           'scripted raw draws: ScriptedRandom overrides the CPython hook random.Random._randbelow (kept by Random.__init_subclass__, CPython 3.12 random.py); numpy Generators are scripted at the Python-level method integers() (numpy routes Generator.choice(k) through it in this numpy version)']
 
 
 import random as _random
@@ -263,12 +264,15 @@ def impl_op(op):
             M = marr(t[3])
             r = pure_call(sp.to_int_tuple, M)
             # dtype: the clean tree asserts uint8 here; the rejection is part of the tie
+            # other dtypes holding the same 0/1 values: the current code rejects them (assert uint8); accepting them is fine as
+            # long as the answer is the same tuple
             for dt in (np.int64, np.bool_):
                 try:
-                    sp.to_int_tuple(M.astype(dt))
-                    return f'dtype {np.dtype(dt).name} accepted by to_int_tuple (clean tree asserts uint8)'
-                except AssertionError:
-                    pass
+                    r2 = sp.to_int_tuple(M.astype(dt))
+                except REJECTION:
+                    continue
+                if tuple(int(x) for x in r2) != tuple(int(x) for x in r):
+                    return f'dtype {np.dtype(dt).name} accepted by to_int_tuple with a different answer {tuple(r2)}'
             return tstr(r)
         return guarded(f)
     if k == 'inv':
@@ -280,6 +284,12 @@ def impl_op(op):
     if k == 'i2b':
         def f():
             i = int(t[3])
+            if i >= 2 ** n:
+                # outside the documented contract (a length-n array holds i < 2^n; no caller in numqi passes more): the current
+                # code drops the high bits below the byte boundary and raises OverflowError at it.  Either behaviour — the low n
+                # bits, or a rejection — is accepted (token `ooc`); anything else is reported as it is.
+                r = guarded(lambda: vstr(sp.int_to_bitarray(i, n)) if n else '-')
+                return 'ooc' if r in ('rejected', low_bits(i, n)) else r
             r = sp.int_to_bitarray(i, n)
             snap = np.array(r).copy()
             r2 = sp.int_to_bitarray(np.int64(i), n) if i < 2 ** 62 else snap   # `int(i)` accepts numpy integers
@@ -295,8 +305,9 @@ def impl_op(op):
         def f():
             b = varr('' if t[3] == '-' else t[3])
             r = pure_call(sp.bitarray_to_int, b)
-            if type(r) is not int:
+            if not isinstance(r, (int, np.integer)):
                 return f'type {type(r).__name__}'
+            r = int(r)
             if sp.bitarray_to_int(b.astype(bool)) != r:
                 raise Aliasing('dtype bool gives a different result than uint8')
             return str(r)
@@ -313,6 +324,19 @@ def impl_op(op):
             return str(int(r)) if t[3].lower() == 'order' else tstr(r)
         return guarded(f)
     return 'bad-op'
+
+
+def low_bits(i, n):
+    return ''.join(str((i >> j) & 1) for j in range(n)) if n else '-'
+
+
+def ooc_model(op, out):
+    """model side of the out-of-contract `i2b` ops: the model reproduces the current code (truncate / OverflowError); both
+    admissible behaviours are the token `ooc`"""
+    t = op.split(' ')
+    if len(t) >= 4 and t[1] == 'i2b' and int(t[3]) >= 2 ** int(t[2]) and out in ('rejected', low_bits(int(t[3]), int(t[2]))):
+        return 'ooc'
+    return out
 
 
 def safe_impl_op(op):
@@ -440,6 +464,27 @@ def rand_tuple(rng, n):
     return tuple(rng.randrange(b) for b in bases(n))
 
 
+def own_symplectic(rng, n, steps=None):
+    """a symplectic 2n x 2n bit matrix built by the harness itself (product of random transvections), so that the op stream does
+    not depend on the implementation being able to produce one"""
+    m = 2 * n
+    L = lam(n)
+    M = np.eye(m, dtype=np.int64)
+    for _ in range(steps if steps is not None else 3 * m):
+        h = np.array([rng.randint(0, 1) for _ in range(m)], dtype=np.int64)
+        M = (M + np.outer((M @ L @ h) % 2, h)) % 2        # rows x -> x + <x,h> h
+    return M.astype(np.uint8)
+
+
+def image_or_own(sp, rng, n, t):
+    """from_int_tuple(t) for building further ops; when the implementation raises (the `from` op of the same tuple reports that)
+    a harness-built group element takes its place, so that generation never fails"""
+    M = guarded(lambda: sp.from_int_tuple(t))
+    if isinstance(M, str) or np.asarray(M).shape != (2 * n, 2 * n):
+        return own_symplectic(rng, n)
+    return np.asarray(M).astype(np.uint8)
+
+
 def gen_ops(ctx):
     import numqi
     sp = numqi.group.spf2
@@ -516,8 +561,7 @@ def gen_ops(ctx):
         return out
     for n in (1, 2):
         # the demo case: the whole image set of from_int_tuple as one stack, every generating transvection
-        imgs = [guarded(lambda: sp.from_int_tuple(t)) for t in (all_tuples(n) if n == 1 else [rand_tuple(rng, 2) for _ in range(12)])]
-        imgs = [M for M in imgs if not isinstance(M, str)]
+        imgs = [image_or_own(sp, rng, n, t) for t in (all_tuples(n) if n == 1 else [rand_tuple(rng, 2) for _ in range(12)])]
         if imgs:
             stack = np.stack(imgs)
             for h in nonzero_vecs(n):
@@ -530,9 +574,7 @@ def gen_ops(ctx):
         shape = [(m,), (k, m), (k, m, m), (k, l, m), (m, m), (2, 1, 2, m)][kind]
         X = np.array([rng.randint(0, 1) for _ in range(int(np.prod(shape)))], dtype=np.uint8).reshape(shape)
         if kind == 2 and rng.random() < 0.7:   # a stack of group elements
-            Ms = [guarded(lambda: sp.from_int_tuple(rand_tuple(rng, n))) for _ in range(k)]
-            if not any(isinstance(M, str) for M in Ms):
-                X = np.stack(Ms)
+            X = np.stack([image_or_own(sp, rng, n, rand_tuple(rng, n)) for _ in range(k)])
         hs = [rand_vec(rng, m) for _ in range(rng.randint(0, 3))]
         ops += batch_ops(n, X, hs)
     # sizes around the machine-word boundary: round trips for n = 31, 32, 33, 40 (2n crosses 64; bases cross 2^63)
@@ -541,10 +583,9 @@ def gen_ops(ctx):
             t = rand_tuple(rng, n)
             if i == 0:
                 t = tuple(b - 1 for b in bases(n))      # the largest digit of every base
-            M = guarded(lambda: sp.from_int_tuple(t))
+            M = image_or_own(sp, rng, n, t)
             ops.append(f'C09 from {n} {tstr(t)}')
-            if not isinstance(M, str):
-                ops += [f'C09 to {n} {mstr(M)}', f'C09 issp {n} {mstr(M)}', f'C09 inv {n} {mstr(M)}']
+            ops += [f'C09 to {n} {mstr(M)}', f'C09 issp {n} {mstr(M)}', f'C09 inv {n} {mstr(M)}']
         v, w = rand_vec(rng, 2 * n, True), rand_vec(rng, 2 * n, True)
         ops += [f'C09 find {n} {v} {w}', f'C09 ip {n} {v} {w}', f'C09 num {n} base', f'C09 num {n} order', f'C09 num {n} coset']
     # the memoised helper of get_number: small sizes again after the large ones, in both orders
@@ -560,9 +601,7 @@ def gen_ops(ctx):
         if rng.random() < 0.3:
             t = tuple(rng.choice([0, b - 1, x]) for x, b in zip(t, bases(n)))
         ops.append(f'C09 from {n} {tstr(t)}')
-        M = guarded(lambda: sp.from_int_tuple(t))
-        if isinstance(M, str):
-            continue
+        M = image_or_own(sp, rng, n, t)
         ms = mstr(M)
         mats.append((n, M))
         ops += [f'C09 to {n} {ms}', f'C09 inv {n} {ms}', f'C09 issp {n} {ms}']
@@ -605,10 +644,16 @@ def gen_ops(ctx):
 
 
 def correspondence(ctx):
-    ops = gen_ops(ctx)
+    try:
+        ops = gen_ops(ctx)
+    except Exception as e:  # noqa: BLE001  an implementation failure while generating is a finding with its input, never exit 2
+        import traceback
+        where = [f'{os.path.basename(fr.filename)}:{fr.lineno} {fr.name}' for fr in traceback.extract_tb(e.__traceback__)][-4:]
+        ctx.fail('implementation-raised', f'{type(e).__name__}: {e} while generating the op stream at {where}', dict(op='generation', exception=repr(e), where=where))
+        ops = []
     ops = list(dict.fromkeys(ops))
     impl = [canon(safe_impl_op(op)) for op in ops]
-    model = [canon(m) for m in common.run_model(ops)]
+    model = [ooc_model(op, canon(m)) for op, m in zip(ops, common.run_model(ops))]
     nontriv = lambda op, out: any(c not in '0; -' for c in ''.join(op.split(' ')[3:]))
     common.compare(ctx, ops, impl, model, nontrivial=nontriv)
     report_side_effects(ctx, ops, impl)
@@ -935,7 +980,7 @@ def replay(ctx, payload):
     elif op in ('side-effect', 'dtype') and 'line' in r:
         out = canon(safe_impl_op(r['line']))
         report_side_effects(ctx, [r['line']], [out])
-        model = [canon(m) for m in common.run_model([r['line']])]
+        model = [ooc_model(r['line'], canon(m)) for m in common.run_model([r['line']])]
         if model and model[0] != out:
             ctx.fail('aliasing' if 'aliasing:' in out else 'correspondence', f"{r['line']}: implementation {out[:200]} model {model[0][:200]}", r)
         hints = None
